@@ -162,7 +162,7 @@ def main():
     from props import national
     np_ = {'seed': chk.seed, 'bases': 6 if quick else 80, 'random': 150 if quick else 4000}
     nsh = chk.drive([('nat', m, np_) for m in national.MODULES], national.worker)
-    nrej = chk.validate('Trace_National', nsh, own_clauses={'N0', 'N1'}, label='national transcriptions (observation)')
+    nrej = chk.validate('Trace_National', nsh, own_clauses={'N0', 'N1', 'N2'}, label='national transcriptions (observation)')
     nextra = run.merge_extra(nsh)
     chk.cov['national_transcriptions'] = {'modules': national.MODULES, 'events': nextra.get('national', 0),
                                           'disagreements': sorted(set('%s %r (%s)' % (r['meta'].get('m'), r['meta'].get('w'), r['meta'].get('outcome')) for r in nrej))[:60]}
